@@ -459,6 +459,12 @@ def arr_getitem(A, idx):
         if isinstance(i, tuple) and i and i[0] == "slice":
             lo, hi, step = i[1], i[2], i[3]
             stp = to_x(step).as_int() if step is not None else 1
+            if stp is None and step is not None and to_x(step) is not None and lo is None and hi is None and not isinstance(step, PV):
+                # a[::s] with a symbolic positive stride: every s-th element, ceil(len/s) of them
+                sx = to_x(step)
+                nv = fresh("t")
+                mapping[v] = sx * X.var(nv); out_axes.append((nv, mk_fn("ceil", [c / sx])))
+                continue
             if stp not in (1, -1) or any(isinstance(z, PV) for z in (lo, hi)):
                 return Opaque("strided slice")
             if any(z is not None and to_x(z) is None for z in (lo, hi)):
@@ -477,6 +483,15 @@ def arr_getitem(A, idx):
                 nv = fresh("t")
                 mapping[v] = lo - X.var(nv); out_axes.append((nv, lo - hi))
             continue
+        if isinstance(i, (ListVal, list)) or (isinstance(i, tuple) and not (i and i[0] == "slice")):
+            from .absint import _concrete_seq
+            pos_ = _concrete_seq(i)
+            if pos_ is None or not all(to_x(p_) is not None and to_x(p_).constval() is not None for p_ in pos_): return Opaque("fancy index list")
+            kv = fresh("k"); bodyk = None
+            for k_ in range(len(pos_) - 1, -1, -1):
+                xi_ = _wrap(to_x(pos_[k_]), c)
+                bodyk = xi_ if bodyk is None else mk_pv(_cond_eq(X.var(kv), X.const(k_), f"{kv}=={k_}"), xi_, bodyk)
+            fancy = (v, Arr([(kv, X.const(len(pos_)))], bodyk)); continue
         if isinstance(i, (Arr, ArrParam)):
             I = as_arr(i)
             if isinstance(I.body, PV) or (isinstance(I.body, bool)):
@@ -743,6 +758,20 @@ def store_subscript(interp, o, t, v, st, aug):
                 c = scal_compare(ast.Eq(), X.var(av), xi, "element index")
                 res = pv_apply(lambda c_, new, old: (new if c_ else old) if isinstance(c_, bool) else Opaque("element test"), c, v, A.body)
                 st.env[t.value.id] = Arr(A.axes, res); return
+        if len(idx) == 1 and A.ndim == 1:
+            # fancy store with a concrete list of positions:  A[[i0, i1, ...]] = v   (later positions win, as in numpy)
+            from .absint import _concrete_seq
+            pos = _concrete_seq(idx[0]) if isinstance(idx[0], (ListVal, tuple, list)) and not (isinstance(idx[0], tuple) and idx[0] and idx[0][0] == "slice") else None
+            if pos is not None and all(to_x(p_) is not None and to_x(p_).constval() is not None for p_ in pos):
+                (av, ac), = A.axes
+                V_ = as_arr(v) if isinstance(v, (Arr, ArrParam)) else None
+                body = A.body
+                for k_, p_ in enumerate(pos):
+                    xi = _wrap(to_x(p_), ac)
+                    newv = arr_index(V_, X.const(k_)) if V_ is not None else v
+                    c = scal_compare(ast.Eq(), X.var(av), xi, "element index")
+                    body = pv_apply(lambda c_, new, old: (new if c_ else old) if isinstance(c_, bool) else Opaque("element test"), c, newv, body)
+                st.env[t.value.id] = Arr(A.axes, body); return
         st.env[t.value.id] = Opaque("unsupported array store")
         return
     if isinstance(o, PV) or is_opaque(o):
